@@ -51,6 +51,7 @@ def run(repo, rep, tier):
     _loop(repo, rep)
     _dollar(repo, rep)
     marker_on_text(repo, rep)
+    L.option_defaults_rule(repo, rep, "R06.1", ("enable_comment_interpolation",))
     L.state_rule(repo, rep)
 
 
